@@ -70,10 +70,31 @@ pub fn generate(seed: u64, cases: usize, out: &mut Vec<String>) {
                     out.push(format!("sess qcn {} {}", k, list_arg(&(0..r.below(3)).map(|_| r.below(3)).collect::<Vec<_>>())));
                     nn += 1;
                 }
-                71..=76 => {
+                71..=74 => {
                     if nn > 0 {
                         out.push(format!("sess qce {} {} {} {}", k, r.below(nn), r.below(2), r.below(3)));
                         // ids stay dense only if the match succeeds; later ops draw from the lower bound
+                    }
+                }
+                75..=79 => {
+                    if nn > 0 {
+                        out.push(format!("sess qset {} {} {} I{}", k, r.below(nn), r.below(2), r.below(4)));
+                    }
+                }
+                80..=81 => {
+                    if nn > 0 {
+                        let op = if r.chance(1, 2) { "qlab" } else { "qunlab" };
+                        out.push(format!("sess {} {} {} {}", op, k, r.below(nn), r.below(3)));
+                    }
+                }
+                82..=83 => {
+                    if nn > 0 {
+                        out.push(format!("sess qdel {} {}", k, r.below(nn)));
+                    }
+                }
+                84 => {
+                    if ne > 0 {
+                        out.push(format!("sess qdele {} {}", k, r.below(ne)));
                     }
                 }
                 _ => reads(&mut r, out, k, nn, ne),
@@ -200,6 +221,52 @@ pub fn run(st: &mut SessSt, args: &[&str]) -> String {
                         .map(|r| r.iter().map(crate::vals::tok).collect::<Vec<_>>().join("."))
                         .collect::<Vec<_>>()
                         .join(","),
+                    Err(e) => format!("query-error:{}", e),
+                }
+            }
+            // in-place mutations issued as query text
+            ["qset", k, id, key, v] => {
+                let k = sess(st, k);
+                let lit = match crate::vals::untok(v) {
+                    Value::Int64(i) => format!("{}", i),
+                    Value::Bool(b) => format!("{}", b),
+                    Value::String(s) => format!("'{}'", s),
+                    other => panic!("unsupported literal {:?}", other),
+                };
+                let q = format!("MATCH (n) WHERE id(n) = {} SET n.k{} = {} RETURN id(n)", id, key, lit);
+                match st.sessions[&k].execute(&q) {
+                    Ok(res) if res.rows.is_empty() => "norows".into(),
+                    Ok(res) => ids_of_rows(&res.rows),
+                    Err(e) => format!("query-error:{}", e),
+                }
+            }
+            ["qlab", k, id, l] | ["qunlab", k, id, l] => {
+                let k = sess(st, k);
+                let clause = if a[0] == "qlab" { "SET" } else { "REMOVE" };
+                // count the matched rows through a second column-free statement: the label operators
+                // hand their input rows on
+                let q = format!("MATCH (n) WHERE id(n) = {} {} n:L{} RETURN 1", id, clause, l);
+                match st.sessions[&k].execute(&q) {
+                    Ok(res) if res.rows.is_empty() => "norows".into(),
+                    Ok(_) => "ok".into(),
+                    Err(e) => format!("query-error:{}", e),
+                }
+            }
+            ["qdel", k, id] => {
+                let k = sess(st, k);
+                let q = format!("MATCH (n) WHERE id(n) = {} DETACH DELETE n", id);
+                match st.sessions[&k].execute_cypher(&q) {
+                    Ok(res) if res.rows.is_empty() => "norows".into(),
+                    Ok(_) => "ok".into(),
+                    Err(e) => format!("query-error:{}", e),
+                }
+            }
+            ["qdele", k, e] => {
+                let k = sess(st, k);
+                let q = format!("MATCH (a)-[e]->(b) WHERE id(e) = {} DELETE e", e);
+                match st.sessions[&k].execute_cypher(&q) {
+                    Ok(res) if res.rows.is_empty() => "norows".into(),
+                    Ok(_) => "ok".into(),
                     Err(e) => format!("query-error:{}", e),
                 }
             }
